@@ -1,6 +1,7 @@
 package cluster
 
 import (
+	"mime/multipart"
 	"bytes"
 	"fmt"
 	"io"
@@ -234,19 +235,41 @@ func execC34(r *simkit.Run) {
 			newData := []byte(fmt.Sprintf("payload-%x", st.Seed))
 			switch op {
 			case "upload":
-				_, err := operation.UploadData("http://"+f.url+"/"+target2, "x.bin", false, newData, false, "application/octet-stream", nil, security.EncodedJwt(tok))
-				accepted = err == nil || !strings.Contains(err.Error(), "jwt")
+				// a raw multipart POST: the verdict is the HTTP status (401 = rejected for its token), not an error text
+				var body bytes.Buffer
+				mw := multipart.NewWriter(&body)
+				fw, _ := mw.CreateFormFile("file", "x.bin")
+				fw.Write(newData)
+				mw.Close()
+				req, _ := http.NewRequest("POST", "http://"+f.url+"/"+target2, &body)
+				req.Header.Set("Content-Type", mw.FormDataContentType())
+				if tok != "" {
+					req.Header.Set("Authorization", "BEARER "+tok)
+				}
+				resp, err := n.roundTrip(req)
 				if err != nil {
-					detail = err.Error()
+					r.HarnessError("upload request: %v", err)
+					return
+				}
+				io.Copy(io.Discard, resp.Body)
+				accepted = resp.StatusCode != http.StatusUnauthorized
+				if resp.StatusCode >= 300 {
+					detail = fmt.Sprint(resp.StatusCode)
 				}
 			case "delete":
-				err := util.Delete("http://"+f.url+"/"+target2, tok)
-				// util.Delete reports 404 as success: distinguish by looking at the status ourselves
 				req, _ := http.NewRequest("DELETE", "http://"+f.url+"/"+target2, nil)
-				_ = req
-				accepted = err == nil || !strings.Contains(err.Error(), "jwt")
+				if tok != "" {
+					req.Header.Set("Authorization", "BEARER "+tok)
+				}
+				resp, err := n.roundTrip(req)
 				if err != nil {
-					detail = err.Error()
+					r.HarnessError("delete request: %v", err)
+					return
+				}
+				io.Copy(io.Discard, resp.Body)
+				accepted = resp.StatusCode != http.StatusUnauthorized
+				if resp.StatusCode >= 300 && resp.StatusCode != http.StatusNotFound {
+					detail = fmt.Sprint(resp.StatusCode)
 				}
 			case "read":
 				req, _ := http.NewRequest("GET", "http://"+f.url+"/"+target2, nil)
